@@ -292,5 +292,37 @@ def run(chk: Check, repo: Repo) -> None:
     chk.ob("every-element-is-decrypted-with-the-derived-key", dk.site(), ok, "Keyring.decrypt derives key and IV from password / created and visits interfaces, group addresses, devices, backbone", key="decrypt|driver")
     gk = repo.func(M, "Keyring.get_data_secure_group_keys")
     chk.ob("getters-return-decrypted-values", gk.site(), "group_address.decrypted_key" in ast.unparse(gk.node) and ".key" not in ast.unparse(gk.node).replace("decrypted_key", ""), "get_data_secure_group_keys reads decrypted_key only", key="getter|group-keys")
+    # verification and decryption are functions of the file as it is now: no memoisation anywhere in the keyring module
+    # (a cache keyed by path and password answers for content that was verified earlier - a file changed afterwards is
+    # accepted, and a restored one stays rejected), and no module-level state written by its functions
+    def reads_files(fn, depth: int = 3) -> bool:
+        for c in ast.walk(fn.node):
+            if isinstance(c, ast.Call):
+                nm = call_name(c)
+                last = nm.split(".")[-1]
+                if nm == "open" or last in ("open", "read_text", "read_bytes", "parse", "parseString") or "xml" in nm or "sax" in nm.lower():
+                    return True
+                if depth > 0:
+                    callee = None
+                    if isinstance(c.func, ast.Name):
+                        r = repo.resolve(fn.module.name, c.func.id)
+                        callee = r if isinstance(getattr(r, "node", None), (ast.FunctionDef, ast.AsyncFunctionDef)) else None
+                    elif isinstance(c.func, ast.Attribute) and isinstance(c.func.value, ast.Name) and c.func.value.id in ("self", "cls") and fn.cls is not None:
+                        callee = repo.lookup_method(fn.cls, c.func.attr)
+                    if callee is not None and callee is not fn and reads_files(callee, depth - 1):
+                        return True
+        return False
+    memo = {"lru_cache", "cache", "cached_property", "functools.lru_cache", "functools.cache", "functools.cached_property", "alru_cache"}
+    nfun = 0
+    for f in repo.all_functions():
+        if f.module.name != "xknx.secure.keyring":
+            continue
+        nfun += 1
+        decs = {d.split("(")[0] for d in f.decorators}
+        glob = [n for n in ast.walk(f.node) if isinstance(n, (ast.Global, ast.Nonlocal))]
+        mutable_default = [ast.unparse(d) for d in f.node.args.defaults + [k for k in f.node.args.kw_defaults if k is not None] if isinstance(d, (ast.List, ast.Dict, ast.Set, ast.Call))]
+        bad = sorted(decs & memo) if reads_files(f) else []  # memoising a pure helper (eg. a key derivation) changes nothing
+        chk.ob("verification-depends-on-the-current-content-only", f.site(), not bad and not glob and not mutable_default, f"{f.qualname}: decorators {sorted(decs) or 'none'}" + (f" - memoised by {bad}: a later call does not look at the file again" if bad else "") + (f"; writes outer state ({[ast.unparse(g) for g in glob]})" if glob else "") + (f"; mutable default {mutable_default}" if mutable_default else ""), key=f"pure|{f.qualname}")
+    chk.floor("keyring module functions checked for memoisation", nfun, 20)
     chk.rule("structural def-use rules over the SAX content handler (signature coverage), the verification and load functions (ordering) and the decrypt_attributes methods (ciphertext-to-field flow); ownership census of the signed buffer and of the decrypted fields")
     chk.assume("SHA-256 collision resistance; xml.sax reports every element and attribute it parses; AES-CBC / PBKDF2 are the cryptography package's")
